@@ -651,6 +651,183 @@ def construct_chain {ν : Type} (vzero : ν) (units : List Int) (num_candidates 
 """
 
 
+CONCAT = ["assert all((e.num_candidates == elements[0].num_candidates for e in elements))",
+          "diameter = max((x.diameter for x in elements))",
+          "units: List[int] = sum([x.units for x in elements], [])",
+          "atype = elements[0].atype",
+          "result = ADD(units=units, diameter=diameter, atype=atype)",
+          "result.root = elements[0].root",
+          "margins = [diameter - x.diameter for x in elements]",
+          "np.concatenate([np.pad(x.nodes, [(0, 0), (0, margins[i])]) for i, x in enumerate(elements)], out=result.nodes)",
+          "np.concatenate([np.pad(x.child, [(0, 0), (0, margins[i]), (0, 0)]) for i, x in enumerate(elements)], out=result.child)",
+          "np.concatenate([np.pad(x.adder, [(0, 0), (0, margins[i]), (0, 0)], constant_values=atype(0)) for i, x in enumerate(elements)], out=result.adder)",
+          "idx = -1",
+          "for i in range(len(elements) - 1):\n    idx += len(elements[i].units)\n    selector = result.nodes[idx].astype('bool')\n    result.child[idx, selector, :] = elements[i + 1].root",
+          "return result"]
+CONCAT_LEAN = """/-- the fields `(units, root, nodes, child, adder, diameter)` of a diagram object -/
+abbrev Fld (ν : Type) := (List Int) × Int × (List (List Int)) × (List (List (List Int))) × (List (List (List ν))) × Int
+
+/-- translated from `ADD.concatenate` (template; at least one element, all with `num_candidates` candidates — the result object is created with the constructor's default of 2
+candidates, so `np.concatenate(..., out=result.child)` only succeeds for 2): the elements' levels one after the other, every level padded on the node axis to the largest
+diameter (`np.pad`: nodes / children 0, edge values `atype(0)`), then the existing nodes of each element's LAST level re-routed to the root of the NEXT element -/
+def add_concatenate {ν : Type} [Inhabited ν] (vzero : ν) (num_candidates : Int) (elements : List (Fld ν)) : Fld ν :=
+  let diameter : Int := (elements.map (fun x => x.2.2.2.2.2)).foldl Np.imax (elements.headD default).2.2.2.2.2
+  let units : List Int := (elements.map (fun x => x.1)).flatten
+  let result_root : Int := (elements.headD default).2.1
+  let margins : List Int := elements.map (fun x => diameter - x.2.2.2.2.2)
+  let result_nodes : List (List Int) := ((Np.enumerateFrom (0 : Int) elements).map (fun ix => Np.padNodeAxis ix.2.2.2.1 (Np.get1 margins ix.1) (0 : Int))).flatten
+  let result_child : List (List (List Int)) :=
+    ((Np.enumerateFrom (0 : Int) elements).map (fun ix => Np.padNodeAxis ix.2.2.2.2.1 (Np.get1 margins ix.1) (Np.rep (0 : Int) num_candidates))).flatten
+  let result_adder : List (List (List ν)) :=
+    ((Np.enumerateFrom (0 : Int) elements).map (fun ix => Np.padNodeAxis ix.2.2.2.2.2.1 (Np.get1 margins ix.1) (Np.rep vzero num_candidates))).flatten
+  let idx : Int := (-1 : Int)
+  let st_ : Int × (List (List (List Int))) := (Np.range (0 : Int) (Np.len1 elements - (1 : Int)) (1 : Int)).foldl (fun (st_ : Int × (List (List (List Int)))) (i : Int) =>
+      let idx : Int := st_.1
+      let result_child : List (List (List Int)) := st_.2
+      let idx : Int := idx + Np.len1 (Np.get1 elements i).1
+      let selector : List Bool := (Np.get1 result_nodes idx).map (fun x => x != (0 : Int))
+      let result_child : List (List (List Int)) := Np.setRowsWhere result_child idx selector (Np.get1 elements (i + (1 : Int))).2.1
+      (idx, result_child)) (idx, result_child)
+  let result_child : List (List (List Int)) := st_.2
+  (units, result_root, result_nodes, result_child, result_adder, diameter)
+"""
+
+
+STACK = ["num_candidates = next(iter(elements.values())).num_candidates",
+         "if len(elements) != num_candidates ** len(factors):\n    raise ValueError('Given %d factors, the number of elements has to be exactly %d.' % (len(factors), num_candidates ** (len(factors) + 1)))",
+         "diameter = sum((x.diameter for x in elements.values()))",
+         "units: List[int] = factors + next(iter(elements.values())).units",
+         "atype = next(iter(elements.values())).atype",
+         "result = ADD(units=units, diameter=diameter, atype=atype)",
+         "elements_list: List['ADD'] = []",
+         "for value in product(*[list(range(num_candidates)) for _ in range(len(factors))]):\n    e = elements.get(value, None)\n    if e is None:\n        raise ValueError('Element for valuation %s not provided.' % str(value))\n    elements_list.append(e)",
+         "for i in range(len(factors) - 1):\n    result.nodes[i, :num_candidates ** i] = np.ones(num_candidates ** i, dtype=int)\n    for c in range(num_candidates):\n        result.child[i, :2 ** i, c] = np.arange(c, num_candidates ** (i + 1) + c, 2, dtype=int)",
+         "result.nodes[len(factors) - 1, :num_candidates ** (len(factors) - 1)] = 1",
+         "offsets = np.zeros(len(elements_list), dtype=int)",
+         "np.cumsum([elements_list[i].diameter for i in range(len(elements_list) - 1)], out=offsets[1:])",
+         "roots = np.array([elements_list[i].root for i in range(len(elements_list))], dtype=int) + offsets",
+         "nf = len(factors)",
+         "ne = len(elements)",
+         "for c in range(num_candidates):\n    result.child[nf - 1, :num_candidates ** (nf - 1), c] = [roots[i] for i in range(ne) if i % num_candidates == c]",
+         "np.concatenate([x.nodes for x in elements_list], axis=1, out=result.nodes[len(factors):])",
+         "np.concatenate([x.child + offsets[i] for i, x in enumerate(elements_list)], axis=1, out=result.child[len(factors):])",
+         "np.concatenate([x.adder for x in elements_list], axis=1, out=result.adder[len(factors):])",
+         "return result"]
+STACK_LEAN = """/-- translated from `ADD.stack` (template).  `elements_list` = the dictionary's elements looked up in `itertools.product` order of the factor valuation (the loop that builds
+the list; the dictionary is taken to hold exactly those valuations, inserted in that order — what `compile` passes — so that `len(elements) = len(elements_list)` and
+`next(iter(elements.values()))` is its first entry); `num_candidates` = that first element's.  The result object is created with the constructor's default of 2 candidates (the
+literal `2` below); the header's child columns are written through `: 2 ** i` and `np.arange(c, …, 2)` AS WRITTEN (they fit only for 2 candidates); a slice bound
+`num_candidates ** (len(factors) - 1)` with no factor is a float (TypeError); NumPy's shape rules for slice assignment and `np.concatenate(..., out=)` are in the vocabulary. -/
+def add_stack {ν : Type} [Inhabited ν] (vzero : ν) (factors : List Int) (elements_list : List (Fld ν)) (num_candidates : Int) : Except String (Fld ν) := do
+  if Np.len1 elements_list != Np.ipow num_candidates (Np.len1 factors) then throw "ValueError"
+  let diameter : Int := Np.sumI (elements_list.map (fun x => x.2.2.2.2.2))
+  let units : List Int := factors ++ (elements_list.headD default).1
+  let result_nodes : List (List Int) := Np.full2L (Np.len1 units) diameter (0 : Int)
+  let result_child : List (List (List Int)) := Np.full3 (Np.len1 units) diameter (2 : Int) (0 : Int)
+  let result_adder : List (List (List ν)) := Np.full3 (Np.len1 units) diameter (2 : Int) vzero
+  let st_ ← (Np.range (0 : Int) (Np.len1 factors - (1 : Int)) (1 : Int)).foldlM (fun (st_ : (List (List Int)) × (List (List (List Int)))) (i : Int) => do
+      let result_nodes ← Np.assignRowPrefix st_.1 i (Np.ipow num_candidates i) (Np.rep (1 : Int) (Np.ipow num_candidates i))
+      let result_child ← (Np.range (0 : Int) num_candidates (1 : Int)).foldlM (fun (result_child : List (List (List Int))) (c : Int) =>
+          Np.assignColPrefix result_child (2 : Int) i (Np.ipow (2 : Int) i) c (Np.range c (Np.ipow num_candidates (i + (1 : Int)) + c) (2 : Int))) st_.2
+      pure (result_nodes, result_child)) (result_nodes, result_child)
+  let result_nodes : List (List Int) := st_.1
+  let result_child : List (List (List Int)) := st_.2
+  let top ← Np.powBound num_candidates (Np.len1 factors - (1 : Int))
+  let result_nodes ← Np.assignRowPrefix result_nodes (Np.len1 factors - (1 : Int)) top [(1 : Int)]
+  let offsets : List Int := (0 : Int) :: Np.cumsumI ((elements_list.map (fun x => x.2.2.2.2.2)).dropLast)
+  let roots : List Int := List.zipWith (fun (x : Fld ν) (o : Int) => x.2.1 + o) elements_list offsets
+  let nf : Int := Np.len1 factors
+  let ne : Int := Np.len1 elements_list
+  let result_child ← (Np.range (0 : Int) num_candidates (1 : Int)).foldlM (fun (result_child : List (List (List Int))) (c : Int) =>
+      Np.assignColPrefix result_child (2 : Int) (nf - (1 : Int)) top c
+        (((Np.range (0 : Int) ne (1 : Int)).filter (fun i => i % num_candidates == c)).map (fun i => Np.get1 roots i))) result_child
+  let result_nodes ← Np.concatAxis1Into (fun _ => true) result_nodes nf (elements_list.map (fun x => x.2.2.1))
+  let result_child ← Np.concatAxis1Into (fun (nd : List Int) => nd.length == 2) result_child nf
+      ((Np.enumerateFrom (0 : Int) elements_list).map (fun ix => Np.addAll3 ix.2.2.2.2.1 (Np.get1 offsets ix.1)))
+  let result_adder ← Np.concatAxis1Into (fun (nd : List ν) => nd.length == 2) result_adder nf (elements_list.map (fun x => x.2.2.2.2.1))
+  pure (units, (0 : Int), result_nodes, result_child, result_adder, diameter)
+"""
+
+
+def gen_stack(tree):
+    fn = method(tree, "ADD", "stack")
+    got = [U(st) for st in fn.body if not (isinstance(st, ast.Expr) and isinstance(st.value, ast.Constant))]
+    if got != STACK:
+        diff = next((g for g, w in zip(got, STACK) if g != w), "statement count %d != %d" % (len(got), len(STACK)))
+        raise Untranslatable("ADD.stack does not match the template: %s" % str(diff)[:160])
+    init = method(tree, "ADD", "__init__")
+    if "num_candidates: int=2" not in U(init.args) and "num_candidates: int = 2" not in U(init.args):
+        raise Untranslatable("default of ADD.__init__(num_candidates) is not 2")
+    if "self.root = 0" not in [U(st) for st in init.body]:
+        raise Untranslatable("ADD.__init__ does not set root = 0")
+    return STACK_LEAN
+
+
+GETLOC = ["assignment = sorted(zip(units, values), key=lambda x: self._units_index[x[0]])",
+          "if len(assignment) == 0:\n    raise ValueError('At one value assignment must be provided.')\nelif len(assignment) == 1:\n    unit, value = assignment[0]\n    cur_unit_idx = self._units_index[unit]\n    cur_nodes = set(self.nodes[cur_unit_idx].nonzero()[0].tolist())\nelif len(assignment) > 1:\n    cur_unit_idx = 0\n    cur_nodes = {self.root}",
+          "cur_location: List[Tuple] = []",
+          "for unit, value in assignment:\n    while self.units[cur_unit_idx] != unit:\n        cur_nodes = set(self.child[cur_unit_idx, list(cur_nodes)].flatten())\n        cur_unit_idx += 1\n    cur_location = [(cur_unit_idx, node, value) for node in cur_nodes]\n    cur_nodes = set(self.child[cur_unit_idx, list(cur_nodes), value].flatten())\n    cur_unit_idx += 1",
+          "return cur_location"]
+GETLOC_LEAN = """/-- translated from `ADD.get_update_location` (template).  Python `set`s of node numbers are kept as sorted duplicate-free lists (`Np.pySet`): the ORDER in which the
+returned list enumerates the last set is CPython's hash order, which no caller depends on (`update` writes each listed edge once — `TIED_update` needs `Nodup` only);
+`self._units_index[u]` of an unknown unit raises KeyError (`sorted` evaluates the key of every pair); the `while` loop (which ends in IndexError when it runs off the unit list)
+is unrolled with `len(units) + 1` steps of fuel; every array access is bounds-checked (`Np.getE`, `Np.rowsFlatE`, `Np.colsE`). -/
+def add_get_update_location (self_units : List Int) (self_root : Int) (self_nodes : List (List Int)) (self_child : List (List (List Int))) (self_num_candidates : Int)
+    (units values : List Int) : Except String (List (Int × Int × Int)) := do
+  let keyed ← (List.zip units values).mapM (fun (uv : Int × Int) =>
+      if self_units.contains uv.1 then (pure (Np.indexOf self_units uv.1, uv) : Except String (Int × Int × Int)) else throw "KeyError")
+  let assignment : List (Int × Int) := (keyed.mergeSort (fun a b => decide (a.1 ≤ b.1))).map (fun kv => kv.2)
+  if Np.len1 assignment == (0 : Int) then throw "ValueError"
+  let start : Int × List Int ←
+    (if Np.len1 assignment == (1 : Int) then do
+      let unit : Int := (assignment.headD default).1
+      let cur_unit_idx : Int := Np.indexOf self_units unit
+      let row ← Np.getE self_nodes cur_unit_idx
+      (pure (cur_unit_idx, Np.pySet (Np.nonzeroIdx row)) : Except String (Int × List Int))
+    else pure ((0 : Int), Np.pySet [self_root]))
+  let st_ ← assignment.foldlM (fun (st_ : Int × List Int × List (Int × Int × Int)) (uv : Int × Int) => do
+      let unit : Int := uv.1
+      let value : Int := uv.2
+      let w_ ← Np.whileFuel (self_units.length + 1) (st_.1, st_.2.1)
+          (fun (s : Int × List Int) => do
+            let u ← Np.getE self_units s.1
+            pure (u != unit))
+          (fun (s : Int × List Int) => do
+            let nxt ← Np.rowsFlatE self_child s.1 s.2
+            pure (s.1 + (1 : Int), Np.pySet nxt))
+      let cur_unit_idx : Int := w_.1
+      let cur_nodes : List Int := w_.2
+      let cur_location : List (Int × Int × Int) := cur_nodes.map (fun node => (cur_unit_idx, node, value))
+      let nxt ← Np.colsE self_child self_num_candidates cur_unit_idx cur_nodes value
+      pure (cur_unit_idx + (1 : Int), Np.pySet nxt, cur_location)) (start.1, start.2, [])
+  pure st_.2.2
+"""
+
+
+def gen_getloc(tree):
+    fn = method(tree, "ADD", "get_update_location")
+    got = [U(st) for st in fn.body if not (isinstance(st, ast.Expr) and isinstance(st.value, ast.Constant))]
+    if got != GETLOC:
+        diff = next((g for g, w in zip(got, GETLOC) if g != w), "statement count %d != %d" % (len(got), len(GETLOC)))
+        raise Untranslatable("ADD.get_update_location does not match the template: %s" % str(diff)[:160])
+    init = method(tree, "ADD", "__init__")
+    if "self._units_index = dict(((unit, idx) for idx, unit in enumerate(self.units)))" not in [U(st) for st in init.body]:
+        raise Untranslatable("ADD.__init__ does not build _units_index from enumerate(self.units)")
+    return GETLOC_LEAN
+
+
+def gen_concat(tree):
+    fn = method(tree, "ADD", "concatenate")
+    got = [U(st) for st in fn.body if not (isinstance(st, ast.Expr) and isinstance(st.value, ast.Constant))]
+    if got != CONCAT:
+        diff = next((g for g, w in zip(got, CONCAT) if g != w), "statement count %d != %d" % (len(got), len(CONCAT)))
+        raise Untranslatable("ADD.concatenate does not match the template: %s" % str(diff)[:160])
+    init = method(tree, "ADD", "__init__")
+    if "num_candidates: int=2" not in U(init.args) and "num_candidates: int = 2" not in U(init.args):
+        raise Untranslatable("default of ADD.__init__(num_candidates) is not 2")
+    return CONCAT_LEAN
+
+
 def gen_templates(tree):
     out = []
     for name, want in (("update", UPDATE), ("construct_chain", CHAIN)):
@@ -732,6 +909,21 @@ def generate(repo=REPO):
             report["ADD.update / construct_chain"] = dict(ok=True)
         except Untranslatable as e:
             report["ADD.update / construct_chain"] = dict(ok=False, why=str(e))
+        try:
+            parts.append(gen_concat(tree))
+            report["ADD.concatenate"] = dict(ok=True)
+        except Untranslatable as e:
+            report["ADD.concatenate"] = dict(ok=False, why=str(e))
+        try:
+            parts.append(gen_stack(tree))
+            report["ADD.stack"] = dict(ok=True)
+        except Untranslatable as e:
+            report["ADD.stack"] = dict(ok=False, why=str(e))
+        try:
+            parts.append(gen_getloc(tree))
+            report["ADD.get_update_location"] = dict(ok=True)
+        except Untranslatable as e:
+            report["ADD.get_update_location"] = dict(ok=False, why=str(e))
         try:
             txt, f = gen_oracle_init(repo)
             parts.append(txt)
